@@ -55,6 +55,8 @@ func (l *Lexer) nextInsideToken() token.Token {
 	var tok token.Token
 
 	l.skipWhitespace()
+	// a token is on the line where it starts, whatever it spans and whatever follows it
+	line := l.curLine
 
 	switch l.ch {
 	case '=':
@@ -71,7 +73,7 @@ func (l *Lexer) nextInsideToken() token.Token {
 			tokSplit := strings.Split(tok.Literal, ".")
 			switch {
 			case len(tokSplit) > 2:
-				return l.newIllegalTokenLiteral(token.ILLEGAL, tok.Literal)
+				return l.newIllegalTokenLiteral(token.ILLEGAL, tok.Literal, line)
 			case len(tokSplit) == 2:
 				tok.Type = "FLOAT"
 			default:
@@ -195,28 +197,27 @@ func (l *Lexer) nextInsideToken() token.Token {
 		if isLetter(l.ch) {
 			tok.Literal = l.readIdentifier()
 			tok.Type = token.LookupIdent(tok.Literal)
-			tok.LineNumber = l.curLine
+			tok.LineNumber = line
 			return tok
 		} else if isDigit(l.ch) {
 			tok.Literal = l.readNumber()
 			tokSplit := strings.Split(tok.Literal, ".")
 			switch {
 			case len(tokSplit) > 2:
-				return l.newIllegalTokenLiteral(token.ILLEGAL, tok.Literal)
+				return l.newIllegalTokenLiteral(token.ILLEGAL, tok.Literal, line)
 			case len(tokSplit) == 2:
 				tok.Type = "FLOAT"
 			default:
 				tok.Type = "INT"
 			}
-			tok.LineNumber = l.curLine
+			tok.LineNumber = line
 			return tok
 		} else {
 			tok = l.newToken(token.ILLEGAL)
 		}
 	}
 
-	// stamp the token with the line it is on: advancing may step onto a newline
-	tok.LineNumber = l.curLine
+	tok.LineNumber = line
 	l.readChar()
 	return tok
 }
@@ -357,6 +358,6 @@ func (l *Lexer) newToken(tokenType token.Type) token.Token {
 	return token.Token{Type: tokenType, Literal: string(l.ch), LineNumber: l.curLine}
 }
 
-func (l *Lexer) newIllegalTokenLiteral(tokenType token.Type, literal string) token.Token {
-	return token.Token{Type: tokenType, Literal: literal, LineNumber: l.curLine}
+func (l *Lexer) newIllegalTokenLiteral(tokenType token.Type, literal string, line int) token.Token {
+	return token.Token{Type: tokenType, Literal: literal, LineNumber: line}
 }
